@@ -29,10 +29,10 @@ Observed(e) == /\ ret' = e.ret
 
 TNext == /\ l <= Len(Tr)
          /\ LET e == Tr[l] IN
-              /\ \/ e.a = "Startup" /\ Startup
-                 \/ e.a = "Subscribe" /\ Subscribe(e.g, e.ans)
-                 \/ e.a = "Unsubscribe" /\ Unsubscribe(e.g, e.ans)
-              /\ Observed(e)
+              /\ \/ e.a = "Startup" /\ Startup /\ Observed(e)
+                 \/ e.a = "Subscribe" /\ Subscribe(e.g, e.ans) /\ Observed(e)
+                 \/ e.a = "Unsubscribe" /\ Unsubscribe(e.g, e.ans) /\ Observed(e)
+                 \/ e.a = "NcpChange" /\ NcpChange /\ tbl' = ToTbl(e.tbl)      \* the host's view is not looked at: it is stale by construction
          /\ l' = l + 1
          /\ UNCHANGED tid
 
